@@ -428,12 +428,14 @@ Qed.
 Theorem a85_roundtrip dbg p e eol :
   bytes_lt256 p -> a85_enc p e -> ws_only eol -> a85_decode dbg (e ++ eol) = Ok p.
 Proof.
-  intros Hp [digits [text [Hd [Hi ->]]]] Heol.
+  intros Hp [digits [Hd Hi]] Heol.
   pose proof (a85_digits_chars p digits Hp Hd) as Hc.
   unfold a85_decode.
-  rewrite !stage_app, (stage_ws eol Heol), app_nil_r.
-  rewrite (stage_interleave digits text); [|intros c Hin; apply enc_char_not_ws; rewrite Forall_forall in Hc; apply Hc, Hin | exact Hi].
-  change (a85_stage [126; 62]%N) with [126; 62]%N.
+  rewrite stage_app, (stage_ws eol Heol), app_nil_r.
+  rewrite (stage_interleave (digits ++ [126; 62]%N) e); [| | exact Hi].
+  2:{ intros c Hin. apply in_app_or in Hin as [Hin | Hin].
+      - apply enc_char_not_ws. rewrite Forall_forall in Hc. apply Hc, Hin.
+      - cbn in Hin. destruct Hin as [<- | [<- | []]]; reflexivity. }
   rewrite strip_eod_app. rewrite (strip_start_marker_enc digits Hc).
   destruct (digits_decode dbg p digits Hp Hd) as [d' [C L]]. rewrite C.
   rewrite (crate_decode_d85 dbg d' (check_d85 _ _ _ _ C)). rewrite L. reflexivity.
